@@ -110,6 +110,11 @@ fn vio(spec: &SeqSpec, key: &str, what: String, hist: &[Op], cfg: &Cfg, extra: V
             "history_text": hist_short(hist),
             "cfg": cfg_to_json(cfg),
             "reopen_cfgs": spec.reopen_cfgs.iter().map(cfg_to_json).collect::<Vec<_>>(),
+            "oracles": {
+                "semantics": spec.oracles.semantics, "journal": spec.oracles.journal,
+                "restart_epilogue": spec.oracles.restart_epilogue, "refused_no_trace": spec.oracles.refused_no_trace,
+                "cache": spec.oracles.cache, "panics_only": spec.oracles.panics_only, "drain_each": spec.oracles.drain_each,
+            },
             "extra": extra,
         }),
     }
